@@ -294,6 +294,7 @@ func main() {
 						}
 						return true
 					})
+					emitFastCodecFacts(o, p, short, rn, fn, d)
 				}
 			}
 		}
@@ -428,5 +429,133 @@ func emitVar(o *out, p *packages.Package, short, name string, val ast.Expr) {
 			return
 		}
 		o.add("Definition %s_%s : Z * Z * string := (%d%%Z, %s, %s). (* kind 1=transport 2=protocol 3=application, type id, message *)", short, name, kind, z, coqString(constant.StringVal(a1.Value)))
+	}
+}
+
+// ---- additive (C11/C15): literal facts of the generated FastCodec writers/readers ----
+//
+//   base.<T>.FastWriteNocopy : for every pair of consecutive statements
+//        b[off] = <const T>; binary.BigEndian.PutUint16(b[off+1:], <const ID>)   -> _fields  (T, ID)
+//        b[off] = <const K>; b[off+1] = <const V>                                -> _mapkv   (K, V)
+//   thrift.ApplicationException.FastWrite : every call <x>.WriteFieldBegin(_, <const T>, <const ID>) -> _fields (T, ID)
+//   thrift.ApplicationException.FastRead  : for every case clause of the tag-less switch, the constant
+//        operands of its == comparisons, in source order                          -> _conds
+func constOf(p *packages.Package, e ast.Expr) (string, bool) {
+	if tv, ok := p.TypesInfo.Types[e]; ok && tv.Value != nil {
+		return coqZ(tv.Value)
+	}
+	return "", false
+}
+
+func isIndexOfB(e ast.Expr) (*ast.IndexExpr, bool) {
+	ix, ok := e.(*ast.IndexExpr)
+	if !ok {
+		return nil, false
+	}
+	id, ok := ix.X.(*ast.Ident)
+	return ix, ok && id.Name == "b"
+}
+
+func emitFastCodecFacts(o *out, p *packages.Package, short, rn, fn string, d *ast.FuncDecl) {
+	if rn == "" {
+		return
+	}
+	if short == "base" && fn == "FastWriteNocopy" {
+		var fields, mapkv []string
+		ast.Inspect(d.Body, func(n ast.Node) bool {
+			blk, ok := n.(*ast.BlockStmt)
+			if !ok {
+				return true
+			}
+			for i := 0; i+1 < len(blk.List); i++ {
+				as, ok := blk.List[i].(*ast.AssignStmt)
+				if !ok || as.Tok != token.ASSIGN || len(as.Lhs) != 1 || len(as.Rhs) != 1 {
+					continue
+				}
+				if _, ok := isIndexOfB(as.Lhs[0]); !ok {
+					continue
+				}
+				c1, ok := constOf(p, as.Rhs[0])
+				if !ok {
+					continue
+				}
+				switch nx := blk.List[i+1].(type) {
+				case *ast.ExprStmt:
+					call, ok := nx.X.(*ast.CallExpr)
+					if !ok || len(call.Args) != 2 {
+						continue
+					}
+					sel, ok := call.Fun.(*ast.SelectorExpr)
+					if !ok || sel.Sel.Name != "PutUint16" {
+						continue
+					}
+					if c2, ok := constOf(p, call.Args[1]); ok {
+						fields = append(fields, fmt.Sprintf("(%s, %s)", c1, c2))
+					}
+				case *ast.AssignStmt:
+					if nx.Tok != token.ASSIGN || len(nx.Lhs) != 1 || len(nx.Rhs) != 1 {
+						continue
+					}
+					if _, ok := isIndexOfB(nx.Lhs[0]); !ok {
+						continue
+					}
+					if c2, ok := constOf(p, nx.Rhs[0]); ok {
+						mapkv = append(mapkv, fmt.Sprintf("(%s, %s)", c1, c2))
+					}
+				}
+			}
+			return true
+		})
+		o.add("Definition %s_%s_%s_fields : list (Z * Z) := [%s]. (* (type, id) of every field header written *)", short, rn, fn, strings.Join(fields, "; "))
+		o.add("Definition %s_%s_%s_mapkv : list (Z * Z) := [%s]. (* (key type, value type) of every map header written *)", short, rn, fn, strings.Join(mapkv, "; "))
+	}
+	if short == "thrift" && rn == "ApplicationException" && fn == "FastWrite" {
+		var fields []string
+		ast.Inspect(d.Body, func(n ast.Node) bool {
+			call, ok := n.(*ast.CallExpr)
+			if !ok || len(call.Args) != 3 {
+				return true
+			}
+			sel, ok := call.Fun.(*ast.SelectorExpr)
+			if !ok || sel.Sel.Name != "WriteFieldBegin" {
+				return true
+			}
+			c1, ok1 := constOf(p, call.Args[1])
+			c2, ok2 := constOf(p, call.Args[2])
+			if ok1 && ok2 {
+				fields = append(fields, fmt.Sprintf("(%s, %s)", c1, c2))
+			}
+			return true
+		})
+		o.add("Definition %s_%s_%s_fields : list (Z * Z) := [%s]. (* (type, id) of every WriteFieldBegin *)", short, rn, fn, strings.Join(fields, "; "))
+	}
+	if short == "thrift" && rn == "ApplicationException" && fn == "FastRead" {
+		var conds []string
+		ast.Inspect(d.Body, func(n ast.Node) bool {
+			sw, ok := n.(*ast.SwitchStmt)
+			if !ok || sw.Tag != nil {
+				return true
+			}
+			for _, cc := range sw.Body.List {
+				for _, e := range cc.(*ast.CaseClause).List {
+					var cs []string
+					ast.Inspect(e, func(m ast.Node) bool {
+						be, ok := m.(*ast.BinaryExpr)
+						if !ok || be.Op != token.EQL {
+							return true
+						}
+						if c, ok := constOf(p, be.Y); ok {
+							cs = append(cs, c)
+						} else if c, ok := constOf(p, be.X); ok {
+							cs = append(cs, c)
+						}
+						return true
+					})
+					conds = append(conds, "["+strings.Join(cs, "; ")+"]")
+				}
+			}
+			return true
+		})
+		o.add("Definition %s_%s_%s_conds : list (list Z) := [%s]. (* constants compared with == in each case of the tag-less switch *)", short, rn, fn, strings.Join(conds, "; "))
 	}
 }
